@@ -86,7 +86,7 @@ func genFreeProgram() *rapid.Generator[*freeProgram] {
 	return rapid.Custom(func(t *rapid.T) *freeProgram {
 		p := &freeProgram{Cfg: kit.GenConfig(t, dispOpts())}
 		m, _ := kit.NewModel(p.Cfg)
-		ids := m.AllIdents()
+		ids := noVoid(m.AllIdents())
 		p.Shared = rapid.IntRange(1, 4).Draw(t, "shared")
 		nth := rapid.IntRange(2, 16).Draw(t, "threads")
 		closeBias := rapid.IntRange(0, 3).Draw(t, "closebias")
